@@ -150,6 +150,12 @@ package generator
 //@ ensures old(len(gen.Sections.OperationGroups)) == 0 ==> vs_all(func(i int) bool { return 0 <= i && i < len(gen.Sections.OperationGroups) ==> !gen.Sections.OperationGroups[i].SkipExists })
 //@ ensures old(len(gen.Sections.Application)) != 0 ==> vs_same(gen.Sections.Application, old(gen.Sections.Application))
 
+//@ func (*LanguageDefinition).ConfigureOpts
+//@ props C11
+//@ requires d != nil && opts != nil
+//@ modifies &opts.Sections, &opts.LanguageOpts
+//@ ensures result == nil && vs_eq(opts.Sections, old(d.Layout))
+
 // ---- C08: no operation is silently dropped or merged ----
 
 //@ func pruneEmpty
